@@ -6,7 +6,11 @@ COMPONENT_CLASH = ["a", "b", "a_b", "a_b_c", "b_c", "c", "x_y", "x", "y"]
 LABEL_LOOKALIKE = ["lbwhile1", "lbelse2", "lbfor3", "lbend4", "lbwhile_end2", "lbfor_body3", "f", "fend", "g", "gend", "main", "mainend", "lbfor_continue5"]
 OPERAND_LOOKALIKE = ["On", "Setting", "Average", "Maximum", "Mode", "r1x", "ra_", "sp1", "db1", "d7", "jal1", "e1", "Color", "Occupied", "Sum", "r16", "r_1", "x0", "HASHx"]
 
-POOLS = dict(ordinary=ORDINARY, prefix=PREFIX_CHAINS, clash=COMPONENT_CLASH, lookalike=LABEL_LOOKALIKE, operand=OPERAND_LOOKALIKE)
+# names that a '.' in the mangled label would match if the label were used as a regular expression (fill_a ->
+# 'fill.a' matches 'fillxa'), names with regex metacharacters' neighbours, and equal-length pairs
+REGEX_LOOKALIKE = ["fill_a", "fillxa", "get_v", "getxv", "a_b", "azb", "a_c", "abc", "run_1", "runz1", "p_q_r", "pxqyr", "p_qyr"]
+
+POOLS = dict(regex=REGEX_LOOKALIKE, ordinary=ORDINARY, prefix=PREFIX_CHAINS, clash=COMPONENT_CLASH, lookalike=LABEL_LOOKALIKE, operand=OPERAND_LOOKALIKE)
 
 
 def pool(kind):
